@@ -162,8 +162,18 @@ func runC11(c *Ctx) {
 					continue
 				}
 				// reachable from the test (admit edge) before the decrement?
+				// start at the load of tokens that feeds the budget comparison (the test may be stored in a
+				// variable and branched on later, after an Unlock)
+				var start ssa.Instruction = iff
+				if bo, ok := iff.Cond.(*ssa.BinOp); ok {
+					for _, opd := range []ssa.Value{bo.X, bo.Y} {
+						if u, ok := opd.(*ssa.UnOp); ok && loadedFromField(u, "clientLimit", "tokens") {
+							start = u
+						}
+					}
+				}
 				q := &pathQuery{fn: adm, stop: isDecr, target: func(x ssa.Instruction) bool { return x == ins }}
-				if h, _ := q.from(iff.Block().Succs[1-rejIdx], 0); h == nil {
+				if h, _ := q.after(start); h == nil {
 					continue
 				}
 				q2 := &pathQuery{fn: adm, target: isDecr}
@@ -331,6 +341,100 @@ func checkClientIP(c *Ctx, rule string) {
 	if n == 0 {
 		c.info(rule, serverPkg+".getClientIP#no-header-returns", f.Pos(), "no return derives from request headers")
 	}
+	// the socket-peer identity: every non-header return is r.RemoteAddr itself or the host part produced by
+	// net.SplitHostPort / netip.ParseAddrPort (IPv6-safe); ad-hoc splitting on ':' merges all IPv6 clients
+	isRemoteAddr := func(v ssa.Value) bool {
+		u, ok := v.(*ssa.UnOp)
+		if !ok || u.Op != token.MUL {
+			return false
+		}
+		_, fld, ok := fieldOf(u.X)
+		return ok && fld == "RemoteAddr"
+	}
+	m := 0
+	eachInstr(f, func(_ *ssa.BasicBlock, _ int, ins ssa.Instruction) {
+		ret, ok := ins.(*ssa.Return)
+		if !ok {
+			return
+		}
+		rv := retVals(ret)[0]
+		if derivesFrom(rv, fromHeader) || !derivesFrom(rv, isRemoteAddr) {
+			return
+		}
+		m++
+		okLeaf := true
+		seen := map[ssa.Value]bool{}
+		var walk func(v ssa.Value)
+		walk = func(v ssa.Value) {
+			if seen[v] {
+				return
+			}
+			seen[v] = true
+			switch x := v.(type) {
+			case *ssa.Phi:
+				for _, e := range x.Edges {
+					walk(e)
+				}
+			case *ssa.Extract:
+				call, ok := x.Tuple.(*ssa.Call)
+				if !ok || x.Index != 0 || !(callName(call) == "net.SplitHostPort" || callName(call) == "net/netip.ParseAddrPort") || !derivesFrom(call.Call.Args[0], isRemoteAddr) {
+					okLeaf = false
+				}
+			case *ssa.UnOp:
+				if isRemoteAddr(x) {
+					return
+				}
+				if al, ok := x.X.(*ssa.Alloc); ok {
+					for _, r := range refs(al) {
+						if st, ok := r.(*ssa.Store); ok && st.Addr == ssa.Value(al) {
+							walk(st.Val)
+						}
+					}
+					return
+				}
+				okLeaf = false
+			case *ssa.Call:
+				// netip.AddrPort.Addr().String() style
+				if strings.HasPrefix(callName(x), "net/netip.") {
+					for _, a := range x.Call.Args {
+						walk(a)
+					}
+					return
+				}
+				okLeaf = false
+			default:
+				okLeaf = false
+			}
+		}
+		walk(rv)
+		c.ob(rule, serverPkg+".getClientIP#peer-host-extraction-"+itoa(m), ret.Pos(), okLeaf, "the socket-peer identity is derived from RemoteAddr by something other than net.SplitHostPort/netip (ad-hoc ':' splitting truncates IPv6 addresses so unrelated clients share one bucket / lock-out tracker)")
+	})
+	if m == 0 {
+		c.ob(rule, serverPkg+".getClientIP#peer-host-extraction", f.Pos(), false, "no return of getClientIP derives from the request's RemoteAddr")
+	}
+	// nobody rewrites Request.RemoteAddr (getClientIP trusts it as the socket peer)
+	w := 0
+	for p := range c.SSA {
+		rel := strings.TrimPrefix(p, modPath+"/")
+		if strings.HasPrefix(rel, "examples") {
+			continue
+		}
+		for _, fn := range c.srcFuncs(rel) {
+			eachInstr(fn, func(_ *ssa.BasicBlock, _ int, ins ssa.Instruction) {
+				st, ok := ins.(*ssa.Store)
+				if !ok {
+					return
+				}
+				nt, fld, ok := fieldOf(st.Addr)
+				if !ok || nt == nil || fld != "RemoteAddr" || nt.Obj().Pkg() == nil || nt.Obj().Pkg().Path() != "net/http" || isFreshAlloc(st.Addr) {
+					return
+				}
+				w++
+				c.ob(rule, fnKey(fn)+"#writes-Request.RemoteAddr-"+itoa(w), st.Pos(), false, "http.Request.RemoteAddr is overwritten (e.g. from forwarding headers) before the limiter/auth middleware reads it: client identity becomes forgeable although proxies are not trusted")
+			})
+		}
+	}
+	c.ob(rule, "module#no-writer-of-Request.RemoteAddr", token.NoPos, w == 0, "see the individual writers")
 }
 
 func itoa(n int) string { return strconv.Itoa(n) }
